@@ -1,6 +1,6 @@
 MUTANTS = [
     ("len-plus4-dropped", "secsgem/hsms/protocol.py", 'length = struct.unpack(">L", length_data)[0] + 4', 'length = struct.unpack(">L", length_data)[0] + 3'),
-    ("peek-to-pop", "secsgem/hsms/protocol.py", "length_data = self._receive_buffer.wait_for(4, peek=True)", "length_data = self._receive_buffer.wait_for(4, peek=False)"),
+    ("peek-to-pop", "secsgem/hsms/protocol.py", "length_data = self._receive_buffer.peek(4)", "length_data = self._receive_buffer.pop(4)"),
     ("wbit-mask", "secsgem/hsms/header.py", "res[1] & 0b01111111,", "res[1] & 0b11111111,"),
     ("swap-ptype-stype", "secsgem/hsms/header.py", "            self.p_type,\n            self.s_type.value,", "            self.s_type.value,\n            self.p_type,"),
     ("while-to-if", "secsgem/hsms/protocol.py", "        while len(self._receive_buffer) > 3:", "        if len(self._receive_buffer) > 3:"),
